@@ -148,9 +148,21 @@ impl<V> OrderedMap<V> {
     /// Removes all elements from the map and resets the counter of
     /// empty entries.
     pub fn clear(&mut self) {
-        self.map.clear();
-        self.map.shrink_to_fit();
-        self.empty_count = 0;
+        if self.lock == 0 {
+            self.map.clear();
+            self.map.shrink_to_fit();
+            self.empty_count = 0;
+        } else {
+            // An iterator or a `forEach` is running: ECMA-262 empties the entries in place, so an
+            // entry appended afterwards keeps a position behind the index of every live iterator.
+            // Replace all entries by tombstones; `unlock` removes them once the last iterator is done.
+            let len = self.map.len();
+            self.map.clear();
+            for i in 0..len {
+                self.map.insert(MapKey::Empty(i), None);
+            }
+            self.empty_count = len;
+        }
     }
 
     /// Return a reference to the value stored for `key`, if it is present,
